@@ -434,6 +434,8 @@ type SoftPHP struct {
 	W      []int  `json:"w"`
 	AtMost bool   `json:"at_most"` // api only: one cardinality constraint per hole instead of pairwise clauses
 	Via    string `json:"via"`     // api | wcnf-nil | wcnf-chan
+	Fixed  int    `json:"fixed"`   // pigeons 0..Fixed-1 are seated in holes 0..Fixed-1 by hard unit clauses
+	Banned int    `json:"banned"`  // > 0: one more soft clause of that weight over fresh variables that hard unit clauses all falsify (always paid)
 }
 
 func checkSoftPHP(c SoftPHP, o *vf.Obs) error {
@@ -442,16 +444,30 @@ func checkSoftPHP(c SoftPHP, o *vf.Obs) error {
 	holes, pigeons := c.Holes, c.Holes+1
 	n := pigeons * holes
 	v := func(p, h int) int { return p*holes + h + 1 }
-	want := c.W[0]
-	for _, w := range c.W {
-		if w < want {
+	want := -1
+	for p, w := range c.W {
+		if p >= c.Fixed && (want < 0 || w < want) { // a pigeon seated by a hard unit clause cannot be given up
 			want = w
 		}
+	}
+	if c.Banned > 0 {
+		want += c.Banned
+	}
+	o.ClassIf(c.Fixed > 0, "hard-unit-clauses")
+	o.ClassIf(c.Banned > 0, "soft-clause-falsified-by-hard-units")
+	nAll := n
+	if c.Banned > 0 {
+		nAll = n + 3
 	}
 	o.Class("via-" + c.Via)
 	o.Class(fmt.Sprintf("holes-%d", holes))
 	o.Nontrivial()
 	seated := func(val func(x int) bool) (cost int, err error) {
+		for p := 0; p < c.Fixed; p++ {
+			if !val(v(p, p)) {
+				return 0, fmt.Errorf("the returned assignment violates the hard unit clause that seats pigeon %d in hole %d", p, p)
+			}
+		}
 		for h := 0; h < holes; h++ {
 			k := 0
 			for p := 0; p < pigeons; p++ {
@@ -473,6 +489,14 @@ func checkSoftPHP(c SoftPHP, o *vf.Obs) error {
 			if !sits {
 				cost += c.W[p]
 			}
+		}
+		if c.Banned > 0 {
+			for x := n + 1; x <= n+3; x++ {
+				if val(x) {
+					return 0, fmt.Errorf("the returned assignment violates the hard unit clause -%d", x)
+				}
+			}
+			cost += c.Banned
 		}
 		return cost, nil
 	}
@@ -500,12 +524,21 @@ func checkSoftPHP(c SoftPHP, o *vf.Obs) error {
 				}
 			}
 		}
+		for p := 0; p < c.Fixed; p++ {
+			cs = append(cs, maxsat.Constr{Lits: []maxsat.Lit{maxsat.Var(name(v(p, p)))}, AtLeast: 1})
+		}
+		if c.Banned > 0 {
+			cs = append(cs, maxsat.Constr{Lits: []maxsat.Lit{maxsat.Var(name(n + 1)), maxsat.Var(name(n + 2)), maxsat.Var(name(n + 3))}, AtLeast: 1, Weight: c.Banned})
+			for x := n + 1; x <= n+3; x++ {
+				cs = append(cs, maxsat.Constr{Lits: []maxsat.Lit{maxsat.Not(name(x))}, AtLeast: 1})
+			}
+		}
 		model, cost := maxsat.New(cs...).Solve()
 		if model == nil {
 			return fmt.Errorf("nil model (cost %d) although the hard constraints are satisfiable (optimum %d by construction)", cost, want)
 		}
-		if len(model) != n {
-			return fmt.Errorf("the model binds %d names, the problem has %d variables", len(model), n)
+		if len(model) != nAll {
+			return fmt.Errorf("the model binds %d names, the problem has %d variables", len(model), nAll)
 		}
 		got, err := seated(func(x int) bool { return model[name(x)] })
 		if err != nil {
@@ -521,7 +554,21 @@ func checkSoftPHP(c SoftPHP, o *vf.Obs) error {
 	for _, w := range c.W {
 		top += w
 	}
-	fmt.Fprintf(&sb, "p wcnf %d %d %d\n", n, pigeons+holes*pigeons*(pigeons-1)/2, top)
+	extra := 0
+	if c.Banned > 0 {
+		top += c.Banned
+		extra = 4
+	}
+	fmt.Fprintf(&sb, "p wcnf %d %d %d\n", nAll, pigeons+holes*pigeons*(pigeons-1)/2+c.Fixed+extra, top)
+	if c.Banned > 0 {
+		fmt.Fprintf(&sb, "%d %d %d %d 0\n", c.Banned, n+1, n+2, n+3)
+		for x := n + 1; x <= n+3; x++ {
+			fmt.Fprintf(&sb, "%d -%d 0\n", top, x)
+		}
+	}
+	for p := 0; p < c.Fixed; p++ {
+		fmt.Fprintf(&sb, "%d %d 0\n", top, v(p, p))
+	}
 	for p := 0; p < pigeons; p++ {
 		fmt.Fprintf(&sb, "%d", c.W[p])
 		for h := 0; h < holes; h++ {
@@ -557,8 +604,8 @@ func checkSoftPHP(c SoftPHP, o *vf.Obs) error {
 	if res.Status != solver.Sat {
 		return fmt.Errorf("Optimal = %v although the hard clauses are satisfiable (optimum %d by construction)", res.Status, want)
 	}
-	if len(res.Model) != n {
-		return fmt.Errorf("the model has %d values, the file declares %d variables", len(res.Model), n)
+	if len(res.Model) != nAll {
+		return fmt.Errorf("the model has %d values, the file declares %d variables", len(res.Model), nAll)
 	}
 	got, err := seated(func(x int) bool { return res.Model[x-1] })
 	if err != nil {
@@ -572,13 +619,22 @@ func checkSoftPHP(c SoftPHP, o *vf.Obs) error {
 
 func genSoftPHP(t *rapid.T) SoftPHP {
 	c := SoftPHP{Holes: rapid.SampledFrom([]int{5, 6, 6, 7}).Draw(t, "holes"), Via: rapid.SampledFrom([]string{"api", "api", "wcnf-nil", "wcnf-chan"}).Draw(t, "via"), AtMost: rapid.Bool().Draw(t, "atMost")}
+	c.Fixed = rapid.IntRange(0, 2).Draw(t, "fixed")
+	if rapid.Bool().Draw(t, "banned") {
+		c.Banned = rapid.IntRange(1, 9).Draw(t, "bannedWeight")
+	}
+	unit := rapid.Bool().Draw(t, "unitWeights") // all weights 1: the bound on the cost collapses to unit clauses
 	for p := 0; p <= c.Holes; p++ {
-		c.W = append(c.W, rapid.IntRange(1, 6).Draw(t, "w"))
+		w := 1
+		if !unit {
+			w = rapid.IntRange(1, 6).Draw(t, "w")
+		}
+		c.W = append(c.W, w)
 	}
 	return c
 }
 
 func init() {
-	vf.Register(vf.Sub[SoftPHP]{Name: "soft-pigeonhole", Quick: 10, Thorough: 100, Gen: genSoftPHP, Check: checkSoftPHP, Floor: 0.9,
-		Rule: "holes+1 pigeons in 5..7 holes: seating pigeon p is a soft clause of weight W[p] in 1..6, sharing a hole is forbidden by hard clauses (or by one hard cardinality constraint per hole); through maxsat.New(...).Solve() and through ParseWCNF + Optimal(nil) / Optimal(chan); the optimum is the smallest weight by construction and proving it takes hundreds to thousands of conflicts (restarts, reductions) after the first models were found; asserted: model over exactly the problem's variables, hard constraints satisfied, reported cost = weight of the violated soft clauses = optimum"})
+	vf.Register(vf.Sub[SoftPHP]{Name: "soft-pigeonhole", Quick: 16, Thorough: 100, Gen: genSoftPHP, Check: checkSoftPHP, Floor: 0.9,
+		Rule: "holes+1 pigeons in 5..7 holes: seating pigeon p is a soft clause of weight W[p] (all 1, or drawn in 1..6), sharing a hole is forbidden by hard clauses (or by one hard cardinality constraint per hole); through maxsat.New(...).Solve() and through ParseWCNF + Optimal(nil) / Optimal(chan); 0..2 pigeons are seated by hard unit clauses, and in half of the cases one more soft clause is falsified by hard unit clauses (its weight is always paid); the optimum is the smallest weight among the other pigeons by construction and proving it takes hundreds to thousands of conflicts (restarts, reductions) after the first models were found; asserted: model over exactly the problem's variables, hard constraints satisfied, reported cost = weight of the violated soft clauses = optimum"})
 }
